@@ -328,6 +328,10 @@ NoLostSet == ~new.has => advertised = lastRequested
 (* connection amounts to the complete advertised set                        *)
 FullResend == (conn # 0 /\ snd.pc = "wait") => sentTable = advertised
 
+(* the sender loop ends only on a closed session (otherwise no further      *)
+(* connection attempt is made and a later Set is never sent)                *)
+SenderAlive == snd.pc = "done" => closed
+
 (* a refused connection is never installed and nothing is written on it     *)
 RefuseWrongASN ==
   [][budget'.refuse < budget.refuse => (conn' = conn /\ nconn' = nconn /\ cnt'.sent = cnt.sent /\ conn = 0)]_vars
